@@ -230,6 +230,14 @@ func init() {
 		p.nilCheck(priv, "ECDH on nil private key")
 		p.nilCheck(remote, "ECDH with nil public key")
 		tc := p.tc
+		if p.h.ECDHMayFail {
+			// X25519 refuses low-order points (all-zero shared secret): the remote share decides
+			bad := p.fresh("in_bool", BoolSort)
+			p.addInput("bool", bad)
+			if p.branch(bad) {
+				return TupleV{&SliceV{}, p.sentinelError("crypto/ecdh: bad X25519 remote ECDH input: low order point")}
+			}
+		}
 		a := p.first64(p.loadObj(p.fieldObj(priv.Obj, "privateKey")).(*SliceV))
 		b := p.first64(p.loadObj(p.fieldObj(remote.Obj, "publicKey")).(*SliceV))
 		lo := tc.Ite(tc.Ult(a, b), a, b)
